@@ -1,4 +1,242 @@
 import MgProof.C17.LemmasSize
 import MgProof.C17.LemmasTime
+import MgModel.C17.Civil
+/-!
+# C17 — property theorems (log rotation never loses, splits or misfiles a line)
+
+Statement (properties.jsonl): with the size-rotating handler, for any sequence of
+message sizes, size limits, backup counts and handler restarts, the backup files from
+oldest to newest followed by the live file concatenate to a contiguous suffix of
+everything written (whole lines, original order, no duplicates), and only lines older
+than the configured number of backups are ever discarded.  With the time-rotating
+handler every line is stored whole in the file named for the period (in the configured
+time zone mode) that contains the line's timestamp.
+
+Models: `MgModel.C17.Size` (log_file_rotate_handler.c, pinned tree = fixed tree) and
+`MgModel.C17.Time` (log_file_time_rot_handler.c **with fixes/C17-time-rot-order.patch**;
+the pinned tree is `twriteLegacy`/`tinitLegacy`, for which the time clause is *false*:
+see the two `…_legacy_…` theorems at the end).
+
+Quantifiers.  Size: every line type and length function, every directory found at the
+start (pre-existing live file and backups, gaps, oversize files), every history of
+`init(max_bytes, backup_count) / write / close` of every length; `max_bytes` may change
+at every restart; `backup_count` may change as long as `max(backup_count,1)` — the
+number of backups the code really keeps — stays `k` (a directory written under a
+different `k` is covered as "pre-existing", i.e. by the same theorems started there).
+Time: every zone function `toTm` (so UTC and every local zone, DST included), every
+unit and `rotate_mod ≥ 1`, every history of `init / write / close` with
+reconfiguration at restarts, message times non-decreasing since the last init
+(`Timely`; an older message is by design appended to the current file).
+
+A file is a list of whole lines in the models: a line is written by one `fwrite` and
+files are only renamed/removed as a whole; that no line is split on disk is checked by
+the harness (every file must parse into whole self-describing lines).
+-/
 namespace MgProof.C17
+open MgModel.C17
+variable {α β : Type}
+
+/-! ## Size rotation -/
+
+/-- the segment history started from the directory as found -/
+def spec0 (fs0 : FS α) (k : Nat) : Spec α := { segs := segsOf fs0 k, isOpen := false, maxBytes := 0 }
+
+/-- **C17, size clause 1 (contiguous suffix).**  For every directory `fs0` found at the
+start, every `k` and every history whose inits keep `k` backups: the backups oldest →
+newest followed by the live file are a suffix of (what those files held at the start
+followed by every line written) — a list of whole lines, so original order, nothing
+duplicated, nothing missing in the middle. -/
+theorem size_view_is_suffix (len : α → Nat) (k : Nat) (fs0 : FS α) (ops : List (Op α))
+    (hk : ConstK k ops) :
+    view k (run len ⟨{}, fs0⟩ ops).fs <:+ view k fs0 ++ written false ops := by
+  have r : Rel len k _ (specRun len (spec0 fs0 k) ops) :=
+    rel_run ops (rel_initial len k {} fs0 rfl 0) hk
+  have hall : specAll (specRun len (spec0 fs0 k) ops).segs = view k fs0 ++ written false ops := by
+    rw [← view_segsOf fs0 k]; exact specAll_run len ops (spec0 fs0 k)
+  rw [view_eq_specView r, ← hall]
+  exact specView_suffix k _
+
+/-- **C17, size clause 2 (what is kept, file by file).**  The files on disk are exactly
+the newest `k+1` segments of the history cut at the points where the live file had
+reached `max_bytes` (`specRun`): `path` is the newest segment, `path.j` the `j`-th newest;
+all segments together are everything that was there plus everything written; hence
+everything = (segments older than the `k` newest backups) ++ (what is on disk). -/
+theorem size_files_are_newest_segments (len : α → Nat) (k : Nat) (fs0 : FS α) (ops : List (Op α))
+    (hk : ConstK k ops) :
+    let S := (specRun len (spec0 fs0 k) ops).segs
+    let fin := (run len ⟨{}, fs0⟩ ops).fs
+    cont fin.live = seg S 0 ∧
+    (∀ j, 1 ≤ j → j ≤ k → cont (bget fin.bak j) = seg S j) ∧
+    specAll S = view k fs0 ++ written false ops ∧
+    view k fs0 ++ written false ops = ((S.drop (k + 1)).reverse).flatten ++ view k fin := by
+  intro S fin
+  have r : Rel len k _ (specRun len (spec0 fs0 k) ops) :=
+    rel_run ops (rel_initial len k {} fs0 rfl 0) hk
+  have hall : specAll S = view k fs0 ++ written false ops := by
+    have := specAll_run len ops (spec0 fs0 k)
+    rw [← view_segsOf fs0 k]; exact this
+  refine ⟨r.live, r.bak, hall, ?_⟩
+  rw [← hall, view_eq_specView r]
+  exact specView_split k S
+
+/-- **C17, size clause 3 (only lines older than the backups are discarded).**  As long as
+the policy has rotated at most `k` times, *nothing written during the history is
+discarded*: each rotation only pushed out the then-oldest pre-existing backup.  (With
+more than `k` rotations the files are the newest `k+1` segments — clause 2.) -/
+theorem size_nothing_written_lost_within_k_rotations (len : α → Nat) (k : Nat) (fs0 : FS α)
+    (ops : List (Op α)) (hk : ConstK k ops) (hr : rotations len (spec0 fs0 k) ops ≤ k) :
+    view k (run len ⟨{}, fs0⟩ ops).fs
+      = view (k - rotations len (spec0 fs0 k) ops) fs0 ++ written false ops := by
+  have r : Rel len k _ (specRun len (spec0 fs0 k) ops) :=
+    rel_run ops (rel_initial len k {} fs0 rfl 0) hk
+  rw [view_eq_specView r]
+  exact specView_few_rotations len k fs0 0 ops hr
+
+/-- **C17, size: the newest line is never discarded** (`max_bytes ≥ 1`): after any
+history in which a line was written, that line is the last line of the live file, or
+the live file is empty (just rotated) and it is the last line of `path.1`. -/
+theorem size_newest_line_kept (len : α → Nat) (k : Nat) (hk1 : 1 ≤ k) (fs0 : FS α)
+    (ops : List (Op α)) (hk : ConstK k ops) (hp : PosLimit ops) (hw : written false ops ≠ []) :
+    let fin := (run len ⟨{}, fs0⟩ ops).fs
+    (cont fin.live).getLast? = (written false ops).getLast? ∨
+    (cont fin.live = [] ∧ (cont (bget fin.bak 1)).getLast? = (written false ops).getLast?) := by
+  intro fin
+  have r : Rel len k _ (specRun len (spec0 fs0 k) ops) :=
+    rel_run ops (rel_initial len k {} fs0 rfl 0) hk
+  have h := nl_run len ops (spec0 fs0 k) [] (fun h => absurd rfl h) hp
+  rw [show (spec0 fs0 k).isOpen = false from rfl, List.nil_append] at h
+  have := h hw
+  rw [← r.live, ← r.bak 1 (Nat.le_refl 1) hk1] at this
+  exact this
+
+/-- **C17, size: the live file stays below the limit** (`max_bytes ≥ 1`): whenever the
+handler is open after a history, `offset` is the size of the live file and is smaller
+than `max_bytes` — a file is closed as soon as it reaches the limit, never earlier
+(clause 2: cuts happen only at `size ≥ max_bytes`). -/
+theorem size_live_below_limit (len : α → Nat) (fs0 : FS α) (ops : List (Op α)) (hp : PosLimit ops) :
+    let s := run len ⟨{}, fs0⟩ ops
+    s.h.isOpen = true →
+      s.h.offset = fsize len (cont s.fs.live) ∧ fsize len (cont s.fs.live) < s.h.maxBytes := by
+  intro s ho
+  have inv : OffInv len (⟨{}, fs0⟩ : St α) := by intro h; simp at h
+  obtain ⟨_, h1, _, h2⟩ := offInv_run ops inv hp ho
+  exact ⟨h1, h1 ▸ h2⟩
+
+/-- Non-vacuity (size): a pre-existing directory with a gap, limit 10, two backups, a
+restart with another limit and four rotations; hypotheses hold, something was discarded,
+and the view is the expected suffix. -/
+def exampleOps : List (Op Nat) := [.init 10 2, .write 4, .write 7, .write 12, .close, .init 5 2,
+  .write 3, .write 3, .write 9, .write 2]
+def exampleDir : FS Nat := { live := some [5], bak := [none, none, some [6, 6]] }
+example :
+    ConstK 2 exampleOps ∧ PosLimit exampleOps ∧
+    view 2 (run id ⟨{}, exampleDir⟩ exampleOps).fs = [3, 3, 9, 2] ∧
+    view 2 exampleDir ++ written false exampleOps = [6, 6, 5, 4, 7, 12, 3, 3, 9, 2] ∧
+    rotations id (spec0 exampleDir 2) exampleOps = 4 :=
+  ⟨by simp [ConstK, exampleOps, eff], by simp [PosLimit, exampleOps], by decide, by decide,
+   by decide⟩
+
+/-! ## Time rotation (code with fixes/C17-time-rot-order.patch) -/
+
+/-- **C17, time clause, one write.**  From every state satisfying the representation
+invariant (every reachable state does: `time_every_line_in_its_period_file_reconf`),
+for every zone function, a message whose effective time is not older than the newest
+one seen is appended — one whole record — to exactly one file, and that file is named
+for the period (unit, `rotate_mod`, zone mode of the open handler) containing the
+message's time. -/
+theorem time_write_files_line_in_its_period (toTm : Bool → Int → Tm) (s : TSt β) (lo : Int)
+    (inv : TInv toTm s lo) (clock ts : Int) (l : β) (hopen : s.h.cur.isSome)
+    (hlo : lo ≤ effSec clock ts) :
+    ∃ h' fs' n, twrite toTm clock s.h s.fs ts l = .ok (h', fs') ∧
+      fs'.recs = s.fs.recs ++ [⟨n, effSec clock ts, l⟩] ∧
+      Filed toTm s.h.unit s.h.mod s.h.useLocal ⟨n, effSec clock ts, l⟩ := by
+  obtain ⟨h', fs', n, h1, h2, h3, _⟩ := twrite_spec inv clock ts l hopen hlo
+  exact ⟨h', fs', n, h1, h2, h3⟩
+
+/-- **C17, time clause, whole histories, one configuration.**  Starting from an empty
+directory, for every zone function, unit, `rotate_mod ≥ 1`, zone mode and every history
+of init/write/close (restarts included) that is `Timely`: the run never fails, the
+records in the directory are exactly the lines handed to the open handler, in order
+(nothing lost, nothing duplicated), and every one is in the file named for the period
+containing its timestamp. -/
+theorem time_every_line_in_its_period_file (toTm : Bool → Int → Tm) (u : RotUnit) (m : Nat)
+    (loc : Bool) (ops : List (TOp β)) (lo : Int) (ht : Timely lo ops) (hc : CfgConst u m loc ops) :
+    ∃ s', trun toTm {} ops = .ok s' ∧
+      (∀ r ∈ s'.fs.recs, Filed toTm u m loc r) ∧
+      s'.fs.recs.map (·.line) = twritten false ops := by
+  have inv : TInv toTm ({} : TSt β) lo :=
+    ⟨fun n hn => by simp at hn, fun ho => by simp at ho⟩
+  obtain ⟨s', h1, new, h2, h3, h4⟩ := trun_filed toTm u m loc ops {} lo inv ht hc
+    (fun ho => by simp at ho)
+  refine ⟨s', h1, ?_, ?_⟩
+  · intro r hr; rw [h2] at hr; exact h3 r (by simpa using hr)
+  · rw [h2]; simpa using h4
+
+/-- **C17, time clause, whole histories, reconfiguration at restarts.**  As above, but
+every init may choose another unit / `rotate_mod ≥ 1` / zone mode: record by record,
+the directory holds the line handed in, filed under the configuration of the handler
+that was open when it was written. -/
+theorem time_every_line_in_its_period_file_reconf (toTm : Bool → Int → Tm) (ops : List (TOp β))
+    (lo : Int) (ht : Timely lo ops) :
+    ∃ s', trun toTm {} ops = .ok s' ∧ FiledAs toTm s'.fs.recs (twrittenCfg none ops) := by
+  have inv : TInv toTm ({} : TSt β) lo :=
+    ⟨fun n hn => by simp at hn, fun ho => by simp at ho⟩
+  obtain ⟨s', h1, new, h2, h3⟩ := trun_filed_cfg toTm ops {} lo inv ht
+  refine ⟨s', h1, ?_⟩
+  have : s'.fs.recs = new := by rw [h2]; rfl
+  rw [this]
+  exact h3
+
+/-- Non-vacuity (time): UTC+5:30, 5-minute files, local mode; init at 2024-02-29
+23:59:59 UTC (= 05:29:59 local, March 1st), messages crossing the 05:30 boundary, a
+restart; the hypotheses hold and three different files are used. -/
+def exampleTOps : List (TOp Nat) := [.init 1709251199 .min 5 true, .write 0 1709251199 1,
+  .write 0 1709251200 2, .write 0 1709251200 3, .close, .init 1709251500 .min 5 true,
+  .write 1709251501 0 4]
+example :
+    Timely 0 exampleTOps ∧ CfgConst .min 5 true exampleTOps ∧
+    ∃ s, trun (toTmFixed 330) {} exampleTOps = .ok s ∧
+      s.fs.created.length = 3 ∧ s.fs.recs.map (·.line) = [1, 2, 3, 4] :=
+  ⟨by simp [Timely, exampleTOps, effSec], by simp [CfgConst, exampleTOps], _, rfl, by decide⟩
+
+/-! ## The pinned tree violates the time clause (negation witnesses)
+
+`trunLegacy` is the code as pinned (before the fix).  Both witnesses are `Timely`
+histories with one configuration, evaluated with the real calendar; they are replayed
+on the implementation by the check (corpus/C17). -/
+
+/-- history 1: init at the epoch (UTC, 1-second files), one message stamped
+2024-02-29 23:59:58 -/
+def legacyWitness1 : List (TOp Nat) := [.init 0 .sec 1 false, .write 0 1709251198 7]
+
+/-- **defect 1 (line written before the period change is detected).**  On the pinned
+code the message of history 1 ends up in the file named for 1970-01-01 00:00:00. -/
+theorem time_legacy_first_line_of_period_misfiled :
+    Timely 0 legacyWitness1 ∧ CfgConst .sec 1 false legacyWitness1 ∧
+    ∃ s', trunLegacy (toTmFixed 0) {} legacyWitness1 = .ok s' ∧
+      ∃ r ∈ s'.fs.recs, ¬ Filed (toTmFixed 0) .sec 1 false r := by
+  refine ⟨by simp [Timely, legacyWitness1, effSec], by simp [CfgConst, legacyWitness1], _, rfl, ?_⟩
+  decide
+
+/-- history 2: zone UTC+5:30, daily files in local mode, init at 2024-02-29 23:59:59 UTC
+(05:29:59 on March 1st local) and a message in the same second -/
+def legacyWitness2 : List (TOp Nat) := [.init 1709251199 .day 1 true, .write 0 1709251199 7]
+
+/-- **defect 2 (`use_local_time` read before it is assigned).**  On the pinned code the
+first file is named in UTC (20240229) although local mode was requested, so the message
+of history 2 — local date March 1st — is misfiled; no period change is involved. -/
+theorem time_legacy_local_init_misfiled :
+    Timely 0 legacyWitness2 ∧ CfgConst .day 1 true legacyWitness2 ∧
+    ∃ s', trunLegacy (toTmFixed 330) {} legacyWitness2 = .ok s' ∧
+      ∃ r ∈ s'.fs.recs, ¬ Filed (toTmFixed 330) .day 1 true r := by
+  refine ⟨by simp [Timely, legacyWitness2, effSec], by simp [CfgConst, legacyWitness2], _, rfl, ?_⟩
+  decide
+
+/-- the fixed code files both witness histories correctly (instance of the theorem) -/
+example : ∃ s', trun (toTmFixed 330) {} legacyWitness2 = .ok s' ∧
+    ∀ r ∈ s'.fs.recs, Filed (toTmFixed 330) .day 1 true r := by
+  obtain ⟨s', h1, h2, _⟩ := time_every_line_in_its_period_file (toTmFixed 330) .day 1 true
+    legacyWitness2 0 (by simp [Timely, legacyWitness2, effSec]) (by simp [CfgConst, legacyWitness2])
+  exact ⟨s', h1, h2⟩
+
 end MgProof.C17
